@@ -380,10 +380,15 @@ class Server:
                 if isinstance(y, RemoteException):
                     y = y.exc
                 if not fut.cancelled():
-                    if isinstance(y, BaseException):
-                        fut.set_exception(y)
-                    else:
-                        fut.set_result(y)
+                    try:
+                        if isinstance(y, BaseException):
+                            fut.set_exception(y)
+                        else:
+                            fut.set_result(y)
+                    except concurrent.futures.InvalidStateError:
+                        # The caller timed out and cancelled the future between the check
+                        # above and here; the late result is simply discarded.
+                        pass
                 fut.data['t2'] = perf_counter()
                 q_notify.put(1)
         finally:
